@@ -21,7 +21,7 @@
     }
 
     /// `t` is exactly `now + delay` on the clock's own (seconds, nanoseconds) representation, computed independently of std's Add
-    fn is_now_plus(t: Instant, now: Instant, delay: Duration) -> bool {
+    pub(crate) fn is_now_plus(t: Instant, now: Instant, delay: Duration) -> bool {
         let (ts, tn) = raw_of(t);
         let (s0, n0) = raw_of(now);
         let sum_n: u32 = n0 + delay.subsec_nanos();
@@ -34,7 +34,7 @@
     }
 
     /// a symbolic "current time" far from the representation limits (monotonic clocks count from boot)
-    fn any_now() -> Instant {
+    pub(crate) fn any_now() -> Instant {
         let s: i64 = kani::any();
         let n: u32 = kani::any();
         kani::assume(s >= 0 && s < (1i64 << 40)); // @assume: monotonic clock reading below 2^40 s (~35000 years of uptime)
@@ -42,6 +42,8 @@
         unsafe { NOW_SECS = s; NOW_NANOS = n; }
         mk_instant(s, n)
     }
+
+    pub(crate) fn any_instant_pub() -> Instant { any_instant() }
 
     fn any_instant() -> Instant {
         let s: i64 = kani::any();
